@@ -64,9 +64,13 @@ def addSoftmaxPat : Pat := .op "Softmax" [bop "Add" (.sym "qk" false) (.sym "mas
 def reduceMeanAxesPat : Pat := .op "ReduceMean" [X, .sym "axes" true] (some "mean")
 
 
+def repeatInterleavePat : Pat :=
+  .op "Reshape" [.op "Expand" [.op "Unsqueeze" [X, .sym "axes" true] none, .sym "expand_shape" false] none,
+    .sym "reshape_shape" false] (some "reshape")
+
 def allFusionPatterns : List Pat :=
   [identityPat, reciprocalPat, siluPat, swishPat, geluPat, approxGeluPat, layerNormPat, rmsNormPat,
-   matmulAddPat, safeSoftmaxPat, addSoftmaxPat, reduceMeanAxesPat]
+   matmulAddPat, safeSoftmaxPat, addSoftmaxPat, reduceMeanAxesPat, repeatInterleavePat]
 
 end Fusions
 end RtenVerif.Pattern
